@@ -142,7 +142,7 @@ def _uses_elsewhere(name: str, stmts: Sequence[ast.AST], allowed: int) -> bool:
     return n > allowed
 
 
-def _try_next_forms(prev: ast.stmt, w: ast.While, func: ast.AST) -> Optional[ast.For]:
+def _try_next_forms(prev: ast.stmt, w: ast.While, func: ast.AST, relaxed: bool = False) -> Optional[ast.For]:
     src = _iter_source(prev)
     if src is None:
         return None
@@ -152,6 +152,13 @@ def _try_next_forms(prev: ast.stmt, w: ast.While, func: ast.AST) -> Optional[ast
         return None
     # form C: while (e := next(it, S)) is not S
     t = w.test
+    if relaxed and isinstance(t, ast.Compare) and len(t.ops) == 1 and isinstance(t.ops[0], ast.IsNot) and isinstance(t.left, ast.NamedExpr) and isinstance(t.comparators[0], ast.Constant) and t.comparators[0].value is None:
+        # (only for analyses that ask *in which order* elements are taken, not what happens at an element that is None)
+        ne = t.left
+        c = ne.value
+        if isinstance(c, ast.Call) and isinstance(c.func, ast.Name) and c.func.id == "next" and len(c.args) == 2 and isinstance(c.args[0], ast.Name) and c.args[0].id == it and isinstance(c.args[1], ast.Constant) and c.args[1].value is None and isinstance(ne.target, ast.Name):
+            out = ast.For(target=ast.Name(id=ne.target.id, ctx=ast.Store()), iter=copy.deepcopy(xe), body=copy.deepcopy(list(w.body)) or [ast.Pass()], orelse=copy.deepcopy(list(w.orelse)), type_comment=None)
+            return ast.copy_location(out, w)
     if isinstance(t, ast.Compare) and len(t.ops) == 1 and isinstance(t.ops[0], ast.IsNot) and isinstance(t.left, ast.NamedExpr) and isinstance(t.comparators[0], ast.Name):
         ne, s = t.left, t.comparators[0].id
         c = ne.value
@@ -173,7 +180,7 @@ def _try_next_forms(prev: ast.stmt, w: ast.While, func: ast.AST) -> Optional[ast
     return None
 
 
-def normalize_loops(func: ast.AST) -> int:
+def normalize_loops(func: ast.AST, relaxed: bool = False) -> int:
     """rewrites the body of the function in place; returns the number of loops rewritten"""
     count = [0]
     serial = [0]
@@ -193,7 +200,7 @@ def normalize_loops(func: ast.AST) -> int:
             if isinstance(st, ast.While) and out:
                 prev = out[-1]
                 serial[0] += 1
-                new = _try_index_form(prev, st, func, "_el%d_" % serial[0]) or _try_next_forms(prev, st, func)
+                new = _try_index_form(prev, st, func, "_el%d_" % serial[0]) or _try_next_forms(prev, st, func, relaxed)
                 if new is not None:
                     out.pop()  # the initialisation of the counter / the iterator goes with the loop
                     out.append(new)
